@@ -18,7 +18,7 @@ for pid in ids:
         "evidence_file": "evidence/%s.json" % pid,
         "replay_cmd_template": "./check %s --replay {path}" % pid,
         "engine": "pyvc",
-        "level_claimed": {"category": "proof", "text": cfg["level_text"], "design_ref": cfg.get("design_ref", "DESIGN.md section 6 " + pid)},
+        "level_claimed": {"category": "proof", "text": cfg["level_text"], "design_ref": cfg.get("design_ref", "DESIGN.md section 4, row " + pid)},
         "level_note": cfg["level_note"],
         "technique": cfg.get("technique", "contract-based deductive verification: VCs generated from the AST of the real functions, discharged by z3/cvc5"),
     })
